@@ -40,6 +40,8 @@ type Solver struct {
 	Errors   []string
 	timeoutMs int
 	marker    int
+	intMode   bool
+	intOK     map[uint32]bool
 	// script log of definitions, for cross-checking with another solver
 	defLines []string
 	logAll   bool
@@ -73,11 +75,22 @@ func NewSolver(name string, ts *TermStore, timeoutMs int) (*Solver, error) {
 		return nil, err
 	}
 	s := &Solver{name: name, cmd: cmd, in: in, out: bufio.NewReaderSize(outp, 1<<16), ts: ts,
-		defined: map[uint32]bool{}, ufDone: map[string]bool{}, timeoutMs: timeoutMs}
+		defined: map[uint32]bool{}, ufDone: map[string]bool{}, timeoutMs: timeoutMs, intOK: map[uint32]bool{}}
 	s.send("(set-option :produce-models true)")
 	if name == "cvc5" {
 		s.send("(set-logic ALL)")
 	}
+	return s, nil
+}
+
+// NewIntSolver starts a solver that uses the INT encoding (see intenc.go).
+func NewIntSolver(name string, ts *TermStore, timeoutMs int) (*Solver, error) {
+	s, err := NewSolver(name, ts, timeoutMs)
+	if err != nil {
+		return nil, err
+	}
+	s.intMode = true
+	s.baseLine(intPrelude)
 	return s, nil
 }
 
@@ -136,6 +149,23 @@ func (s *Solver) define(t *Term) {
 			continue
 		}
 		s.defined[u.ID] = true
+		if s.intMode {
+			if u.Op == OVar {
+				for _, l := range s.intDeclare(u) {
+					s.baseLine(l)
+				}
+			} else {
+				b, ok := s.intBody(u)
+				if !ok {
+					panic("intMode: unencodable term reached define")
+				}
+				s.baseLine(fmt.Sprintf("(define-fun t%d () %s %s)", u.ID, intSortOf(u), b))
+				if u.S.K == KBV {
+					s.baseLine(s.signedDef(u))
+				}
+			}
+			continue
+		}
 		switch u.Op {
 		case OVar:
 			s.baseLine(fmt.Sprintf("(declare-const %s %s)", u.Name, u.S.smt()))
@@ -384,6 +414,9 @@ func parseSMTValue(v interface{}, s Sort) (uint64, error) {
 		return 0, fmt.Errorf("bad bool %v", v)
 	case KBV:
 		if str, ok := v.(string); ok {
+			if len(str) > 0 && str[0] >= '0' && str[0] <= '9' {
+				return strconv.ParseUint(str, 10, 64)
+			}
 			b, _, err := parseBitsLiteral(str)
 			return b, err
 		}
@@ -457,7 +490,24 @@ func (s *Solver) Script(conj []*Term) string {
 		visit(c)
 	}
 	ufs := map[string]bool{}
+	if s.intMode {
+		sb.WriteString(intPrelude + "\n")
+	}
 	for _, u := range order {
+		if s.intMode {
+			if u.Op == OVar {
+				for _, l := range s.intDeclare(u) {
+					sb.WriteString(l + "\n")
+				}
+			} else {
+				b, _ := s.intBody(u)
+				fmt.Fprintf(&sb, "(define-fun t%d () %s %s)\n", u.ID, intSortOf(u), b)
+				if u.S.K == KBV {
+					sb.WriteString(s.signedDef(u) + "\n")
+				}
+			}
+			continue
+		}
 		if u.Op == OVar {
 			fmt.Fprintf(&sb, "(declare-const %s %s)\n", u.Name, u.S.smt())
 		} else {
@@ -487,11 +537,12 @@ func OneShot(solver string, script string, timeoutMs int) (Result, string) {
 	cmd.Stdin = strings.NewReader(pre + script)
 	out, _ := cmd.CombinedOutput()
 	text := string(out)
-	if strings.Contains(text, "(error") {
-		return Unknown, text
-	}
 	for _, line := range strings.Split(text, "\n") {
-		switch strings.TrimSpace(line) {
+		l := strings.TrimSpace(line)
+		if strings.HasPrefix(l, "(error") {
+			return Unknown, text
+		}
+		switch l {
 		case "sat":
 			return Sat, text
 		case "unsat":
@@ -499,4 +550,78 @@ func OneShot(solver string, script string, timeoutMs int) (Result, string) {
 		}
 	}
 	return Unknown, text
+}
+
+// OneShotModel is OneShot plus model extraction for the given variables.
+func OneShotModel(solver string, script string, vars []*Term, timeoutMs int) (Result, Model) {
+	if len(vars) == 0 {
+		r, _ := OneShot(solver, script, timeoutMs)
+		return r, Model{}
+	}
+	var sb strings.Builder
+	sb.WriteString("(set-option :produce-models true)\n")
+	sb.WriteString(script)
+	sb.WriteString("(get-value (")
+	for _, v := range vars {
+		sb.WriteString(v.Name + " ")
+	}
+	sb.WriteString("))\n")
+	r, out := OneShot(solver, sb.String(), timeoutMs)
+	if r != Sat {
+		// an (error from get-value after unsat is expected; re-run plain to get a clean verdict
+		if strings.Contains(out, "unsat") {
+			r2, _ := OneShot(solver, script, timeoutMs)
+			return r2, nil
+		}
+		return r, nil
+	}
+	i := strings.Index(out, "((")
+	if i < 0 {
+		return Sat, nil
+	}
+	toks := tokenizeSexp(out[i:])
+	pos := 0
+	var parse func() interface{}
+	parse = func() interface{} {
+		if pos >= len(toks) {
+			return nil
+		}
+		t := toks[pos]
+		pos++
+		if t == "(" {
+			var l []interface{}
+			for pos < len(toks) && toks[pos] != ")" {
+				l = append(l, parse())
+			}
+			pos++
+			return l
+		}
+		return t
+	}
+	root, ok := parse().([]interface{})
+	if !ok {
+		return Sat, nil
+	}
+	byName := map[string]*Term{}
+	for _, v := range vars {
+		byName[v.Name] = v
+	}
+	m := Model{}
+	for _, e := range root {
+		pair, ok := e.([]interface{})
+		if !ok || len(pair) != 2 {
+			continue
+		}
+		name, _ := pair[0].(string)
+		v := byName[name]
+		if v == nil {
+			continue
+		}
+		bits, err := parseSMTValue(pair[1], v.S)
+		if err != nil {
+			return Sat, nil
+		}
+		m[v.ID] = bits
+	}
+	return Sat, m
 }
